@@ -36,11 +36,11 @@ import (
 var epOrder = []string{"Parse", "StrictParse", "ParseAny", "MustParse", "MustStrictParse", "MustParseAny"}
 
 type epRow struct {
-	ty, file, ep          string
-	shape, target         string
-	arg, code, validator  string
-	pre, post             int
-	calls                 []string
+	ty, file, ep         string
+	shape, target        string
+	arg, code, validator string
+	pre, post            int
+	calls                []string
 }
 
 func exprStr(fset *token.FileSet, e ast.Expr) string {
@@ -333,7 +333,7 @@ func genEntryPoints(repo, outPath string) error {
 	}
 	sort.Strings(files)
 	methods := map[string]map[string]epRow{} // type -> ep -> row
-	embeds := map[string][]string{}           // type -> embedded type names
+	embeds := map[string][]string{}          // type -> embedded type names
 	fileOf := map[string]string{}
 	for _, f := range files {
 		if strings.HasSuffix(f, "_test.go") {
@@ -436,7 +436,9 @@ func genEntryPoints(repo, outPath string) error {
 			rows = append(rows, r)
 		}
 	}
-	q := func(s string) string { return "\"" + strings.ReplaceAll(strings.ReplaceAll(s, "\\", "\\\\"), "\"", "\\\"") + "\"" }
+	q := func(s string) string {
+		return "\"" + strings.ReplaceAll(strings.ReplaceAll(s, "\\", "\\\\"), "\"", "\\\"") + "\""
+	}
 	var b strings.Builder
 	b.WriteString("/- REGENERATED by harness/cmd/c09 -gen-entrypoints (go/ast over types/*.go) on every run of ./check C09. Do not edit. -/\n")
 	b.WriteString("import Gozod.Model.EntryPoints\nnamespace Gozod.Gen.EntryPoints\nopen Gozod.EntryPoints\n\n")
